@@ -1,7 +1,60 @@
+import os
 """C02 — decided on the serial dependency engine; see deps_check.py (shared body) and DESIGN §7."""
 import random
 import deps_check, depsgen, c10
 from c_deps_common import *
+
+def never_built_scenarios(viol):
+    """"Runs the .do of a target … if that target was never built": two ways of never having been built that leave
+    traces behind.  (1) The FIRST build of a checksummed target is killed after its `redo-stamp` (the record already says
+    generated / changed in that run, there is no file and no stamp): the next redo-ifchange must run the script.  (2) A
+    target in a directory that its own script creates (rule in an ancestor directory), and a more specific rule added
+    in that directory later: the next redo-ifchange must rebuild it with the new rule."""
+    import signal, subprocess, time as _t
+    from proj import Project, clean_env
+    from common import write_replay, Violation
+    pr = Project()
+    try:
+        pr.write("src", "v1\n")
+        pr.write("gen.do", "echo ran >>gen.runs\nredo-ifchange src\nredo-stamp <src\n: >stamped\nif [ -e hold ]; then sleep 5; fi\ncat src\n")
+        pr.write("hold", "")
+        p = subprocess.Popen(["redo-ifchange", "gen"], cwd=pr.root, env=clean_env(), stdout=subprocess.DEVNULL, stderr=subprocess.DEVNULL, stdin=subprocess.DEVNULL, start_new_session=True)
+        t0 = _t.time()
+        while not os.path.exists(pr.path("stamped")) and _t.time() - t0 < 20:
+            _t.sleep(0.05)
+        _t.sleep(0.2)
+        try:
+            os.killpg(p.pid, signal.SIGKILL)
+        except ProcessLookupError:
+            pass
+        p.wait()
+        pr.rm("hold")
+        before = len((pr.read("gen.runs") or b"").split())
+        rc, o, e = pr.run(["redo-ifchange", "gen"], timeout=60)
+        after = len((pr.read("gen.runs") or b"").split())
+        if rc != 0 or after != before + 1 or pr.read("gen") != b"v1\n":
+            pth = write_replay("C02", "never-built-killed-first-build", dict(kind="impl-monitor", clause="runs the .do of a target if that target was never built", rc=rc, runs_before=before, runs_after=after, gen=repr(pr.read("gen")), stderr=e[-600:],
+                                                                            scenario="gen.do: redo-ifchange src; redo-stamp <src; (slow); cat src.  first redo-ifchange gen killed (whole tree) after the redo-stamp; redo-ifchange gen"))
+            viol.append(Violation("C02", pth, "a target whose first build was killed after its redo-stamp: the next redo-ifchange exits %d, gen.do ran %d time(s), gen holds %r" % (rc, after - before, pr.read("gen"))))
+            return
+    finally:
+        pr.destroy()
+    pr = Project()
+    try:
+        pr.write("default.txt.do", 'mkdir -p "$(dirname "$1")"\necho "top rule for $1"\n')
+        rc, o, e = pr.run(["redo-ifchange", "out/sub/x.txt"], timeout=60)
+        first = pr.read("out/sub/x.txt")
+        pr.write("out/sub/default.txt.do", 'echo "sub rule for $1"\n')
+        rc2, o2, e2 = pr.run(["redo-ifchange", "out/sub/x.txt"], timeout=60)
+        second = pr.read("out/sub/x.txt")
+        rc3, o3, e3 = pr.run(["redo-ifchange", "out/sub/x.txt"], timeout=60)
+        if rc != 0 or rc2 != 0 or second != b"sub rule for x.txt\n":
+            pth = write_replay("C02", "never-built-late-directory", dict(kind="impl-monitor", clause="… or one of its currently declared dependencies (including … the absence of higher-priority .do files) changed", rcs=[rc, rc2, rc3], first=repr(first), second=repr(second), stderr=e2[-600:],
+                                                                        scenario="default.txt.do (mkdir -p of the target's directory); redo-ifchange out/sub/x.txt; create out/sub/default.txt.do; redo-ifchange out/sub/x.txt"))
+            viol.append(Violation("C02", pth, "a higher-priority rule created in a directory that did not exist when the target was first built: out/sub/x.txt holds %r after the next redo-ifchange (exit %d), the new rule gives 'sub rule for x.txt'" % (second, rc2)))
+    finally:
+        pr.destroy()
+
 
 def run(ctx):
     # the old dependency rows must stay in force while a rebuild is in flight (zap_deps1 .. zap_deps2): some histories
@@ -10,4 +63,8 @@ def run(ctx):
     killed = [c10.with_crashes(rng, depsgen.gen_case(rng, features=FEATURES["C02"])) for _ in range(150 if ctx["tier"] == "thorough" else 15)]
     cov = deps_check.run_property(ctx, "C02", FEATURES["C02"], NCASES["C02"], WANT["C02"] | {"C01"}, known_matcher=deps_check.nested_overbuild_matcher("C02", c10.kill_window_matcher("C02")), extra_cases=killed)
     cov["histories_with_killed_builds"] = len(killed)
+    viol = ctx.setdefault("violations", [])
+    if not viol and not ctx.get("replay"):
+        never_built_scenarios(viol)
+        cov["directed_scenarios"] = 2
     return cov
